@@ -70,10 +70,12 @@ PROPS.update({
         level_note=COMMON_NOTE + "Glyphs of width <= 1 in the theorems; move_cursor=false; the vt100 emulator stands for the terminal.",
         ),
     "C02": dict(
-        streams=[dict(cmd="C02")],
-        technique="Lean 4 refinement proof (slot bookkeeping refines the documented order; invariant over every MultiProgress operation history) + differential correspondence",
+        streams=[dict(cmd="C02"), dict(cmd="ROWS")],
+        technique="Lean 4 refinement proof (slot bookkeeping refines the documented order; frame invariant of the row-level MultiState model over every operation history) + differential correspondence",
         level_text="The ordering/free-set bookkeeping of MultiState is proved to refine the documented list-of-bars order for every operation history, with the slot partition "
-                   "kept by every operation; screens of the real MultiProgress equal the model's at every flush and are judged by an order/once-only oracle.",
+                   "kept by every operation; on the row-level model (validated against the real terminal by the ROWS stream) it is proved for every history that the managed region "
+                   "is exactly the members' last painted rows in visual order, that a painted frame shows each member's stored rendering once and in order, and that a removed bar "
+                   "leaves the frame in the same call; screens of the real MultiProgress equal the model's at every flush and are judged by an order/once-only oracle.",
         level_note=COMMON_NOTE + "Concurrency: draws are serialised by the multi write lock (lock-trace correspondence of C08).",
         ),
     "C03": dict(
@@ -86,10 +88,11 @@ PROPS.update({
         level_note=COMMON_NOTE,
         ),
     "C04": dict(
-        streams=[dict(cmd="C04"), dict(cmd="C04B")],
+        streams=[dict(cmd="C04"), dict(cmd="C04B"), dict(cmd="ROWS")],
         technique="Lean 4 theorems (finish/drop emit exactly the forced draw of the final state, for every limiter state) + differential correspondence",
         level_text="For every bar state, limiter state and finish kind the finishing call is proved to paint exactly the final frame without consulting the limiter; drop is "
-                   "proved equal to finish_using_style or a no-op; final frames of real histories are compared with the model and judged by the final-rendering oracle.",
+                   "proved equal to finish_using_style or a no-op; on the row-level MultiState model (ROWS stream) finishing a member is proved to paint its final rendering for every "
+                   "multi state, and finished members are proved to keep their last rendering inside the managed region after every history; final frames of real histories are compared with the model and judged by the final-rendering oracle.",
         level_note=COMMON_NOTE,
         ),
     "C08": dict(
